@@ -333,14 +333,79 @@ def dx_header(text):
     return h
 
 
+def multicol_layout_bad(g, text, tol):
+    """implementation-only oracle for a written multicolumn file: header = (lower, width, size, periodic) per dimension,
+    one row per bin in address order = bin centres lower + (i + 1/2) width followed by the mult values of that bin"""
+    import itertools
+    lines = text.split("\n")
+    hdr = [l.split() for l in lines if l.startswith("#")]
+    rows = [[float(x) for x in l.split()] for l in lines if l.strip() and not l.startswith("#")]
+    nd, mult = g["nd"], g["mult"]
+    if len(hdr) != nd + 1 or hdr[0] != ["#", str(nd)]:
+        return "first line is not '# %d' followed by %d header lines" % (nd, nd)
+    for i in range(nd):
+        h = hdr[i + 1]
+        if len(h) != 5 or not close(float(h[1]), g["lower"][i], tol) or not close(float(h[2]), g["width"][i], tol) \
+                or int(h[3]) != g["nx"][i] or int(h[4]) != g["per"][i]:
+            return "header line %d is %s; the grid has lower %r width %r size %d periodic %d" % (
+                i + 1, h, g["lower"][i], g["width"][i], g["nx"][i], g["per"][i])
+    want = []
+    for a, ix in enumerate(itertools.product(*[range(n) for n in g["nx"]])):
+        want.append([g["lower"][i] + g["width"][i] * (0.5 + ix[i]) for i in range(nd)] + g["data"][a * mult:(a + 1) * mult])
+    if len(rows) != len(want):
+        return "%d rows for %d bins" % (len(rows), len(want))
+    for k, (r_, w_) in enumerate(zip(rows, want)):
+        if len(r_) != len(w_) or any(not close(x, y, max(tol, 1e-15)) for x, y in zip(r_, w_)):
+            return "row %d is %s; bin %d has centre and values %s" % (k, r_, k, w_)
+    return None
+
+
+def state_grid_bad(c, gi):
+    """implementation-only oracle for a grid built on variables with given boundaries and widths (init_from_boundaries)"""
+    if gi is None:
+        return "no grid"
+    for i, (cv, d) in enumerate(zip(c["cvs"], c["geo"])):
+        nb = (d["upper"] - d["lower"]) / d["width"]
+        n = int(round(nb))
+        if gi["nx"][i] != n:
+            return "dimension %d: %d bins for [%r, %r] width %r (%r bins)" % (i, gi["nx"][i], d["lower"], d["upper"], d["width"], nb)
+        if not close(gi["upper"][i], d["lower"] + n * d["width"], 1e-9) or not close(gi["lower"][i], d["lower"], 0.0):
+            return "dimension %d: boundaries %r..%r instead of %r..%r" % (i, gi["lower"][i], gi["upper"][i], d["lower"], d["lower"] + n * d["width"])
+    return None
+
+
 def run_io(run, r, unit, model, n):
     cases = [gen_io_case(r, k) for k in range(n)]
     wl = [write_cmds(c) for c in cases]
+    # the grids of the restart-form cases, as the real code and the model size them from boundaries and widths
+    sg = [c for c in cases if c["fmt"] == "state"]
+    sgl = [sspec(c["mult"], c["cvs"], c["geo"], c["data"]) + " GRID" for c in sg]
+    rc1, gi_, e1 = V.run_lines(unit, ["SW " + l for l in sgl], timeout=900)
+    rc2, gm_, e2 = V.run_lines(model, ["WRITE state " + l for l in sgl], timeout=900)
+    if len(gi_) != len(sgl):
+        k = len(gi_)
+        run.violation("io:crash:grid", "the real code died (rc=%d) building a grid: SW %s ... %s" % (rc1, sgl[k][:300], e1[-200:]),
+                      {"kind": "unit", "case": "SW " + sgl[k]})
+        return
+    for c, l, oi, om in zip(sg, sgl, gi_, gm_ + ["<none>"] * len(sgl)):
+        gi = parse_grid(oi)
+        bad = state_grid_bad(c, gi)
+        run.count("grid%d" % c["id"], True)
+        if bad:
+            run.violation("grid:sizes-from-boundaries", "a grid defined by boundaries and widths gets the wrong sizes: " + bad,
+                          {"kind": "unit", "case": "SW " + l, "impl": oi})
+        d = grids_differ(gi, parse_grid(om), 1e-12)
+        if d:
+            run.mismatch("grid:sizes-from-boundaries", "SW " + l[:500], oi[:300], om[:300] + " [" + d + "]")
     rc1, wi, e1 = V.run_lines(unit, [a for a, _ in wl], timeout=900)
     rc2, wm, e2 = V.run_lines(model, [b for _, b in wl], timeout=900)
-    if len(wi) != len(cases) or len(wm) != len(cases):
-        run.violation("io:crash", "a driver died while writing grid files (unit rc=%d %d/%d lines, model rc=%d %d/%d): %s %s" % (
-            rc1, len(wi), len(cases), rc2, len(wm), len(cases), e1[-200:], e2[-200:]), {"kind": "io", "cases": len(cases)}, found_input=False)
+    if len(wm) != len(wl):
+        run.mismatch("io:model-driver", wl[min(len(wm), len(wl) - 1)][1][:400], "-", "model driver stopped (rc=%d): %s" % (rc2, e2[-200:]))
+        return
+    if len(wi) != len(wl):
+        k = len(wi)
+        run.violation("io:crash:write", "the real code died (rc=%d) on this grid: %s ... %s" % (rc1, wl[k][0][:300], e1[-200:]),
+                      {"kind": "unit", "case": wl[k][0]})
         return
     rl, rmeta = [], []
     for c, ti, tm in zip(cases, wi, wm):
@@ -376,6 +441,11 @@ def run_io(run, r, unit, model, n):
             except ValueError:
                 run.mismatch("io:dx:header", {"cmd": wl[cases.index(c)][0][:300]}, h, tm[:200])
             continue
+        if f in ("multicol", "file"):
+            bad = multicol_layout_bad(c["g"], text, max(tol, 0.0))
+            if bad:
+                run.violation("io:multicol:layout", "a multicolumn file does not describe the grid that was written: " + bad,
+                              {"kind": "unit", "case": wl[cases.index(c)][0], "text": text})
         # 1. token stream of the real file vs the model's writer
         d = toks_differ(tm[2:].split(), lex(text), tol) if tm.startswith("T ") else "model printed " + tm[:100]
         if d:
@@ -390,11 +460,13 @@ def run_io(run, r, unit, model, n):
                 rl.append((a, b)); rmeta.append((c, kind + ": " + m[1], m[0]))
     rc1, ri, e1 = V.run_lines(unit, [a for a, _ in rl], timeout=900)
     rc2, rm, e2 = V.run_lines(model, [b for _, b in rl], timeout=900)
-    if len(ri) != len(rl) or len(rm) != len(rl):
-        k = min(len(ri), len(rm))
-        run.violation("io:crash", "a driver died while reading grid files (unit rc=%d %d/%d lines, model rc=%d %d/%d): %s %s" % (
-            rc1, len(ri), len(rl), rc2, len(rm), len(rl), e1[-200:], e2[-200:]),
-            {"kind": "io", "cmd": rl[k][0] if k < len(rl) else None})
+    if len(rm) != len(rl):
+        run.mismatch("io:model-driver", rl[min(len(rm), len(rl) - 1)][1][:400], "-", "model driver stopped (rc=%d): %s" % (rc2, e2[-200:]))
+        return
+    if len(ri) != len(rl):
+        k = len(ri)
+        run.violation("io:crash:read", "the real code died (rc=%d) reading this file: %s ... %s" % (rc1, rl[k][0][:300], e1[-200:]),
+                      {"kind": "unit", "case": rl[k][0]})
         return
     nrej = 0
     for (c, mut, text), (a, b), oi, om in zip(rmeta, rl, ri, rm):
